@@ -85,6 +85,7 @@ type Harness struct {
 	Now  int64 // virtual nanoseconds since the start
 	// wills of connections replaced by a reconnect under the same client name
 	oldWills []*Will
+	hostile  map[string]bool
 	// StrictSubClose: a SUBSCRIBE/UNSUBSCRIBE answered by closing the connection is
 	// acceptable (C07 says so) — always true; kept for clarity
 }
@@ -423,6 +424,34 @@ func (h *Harness) Step(a Action) []Mismatch {
 		e.Comp = "acks"
 		e.Desc = "answer to PINGREQ sent in two pieces"
 		e.Must = []*refcodec.Packet{{Type: refcodec.PINGRESP}}
+	case "hostile-dial":
+		// the attacker's first bytes on a fresh connection; nothing is demanded of it
+		c, err := h.W.Dial(a.Client)
+		if err != nil {
+			return []Mismatch{{"harness", "dial failed: " + err.Error()}}
+		}
+		h.byName[a.Client] = c
+		c.AutoAck = false
+		if len(a.Raw) > 0 {
+			c.SendRaw(a.Raw)
+		}
+		m.conns[a.Client] = &mconn{name: a.Client, qos2in: map[uint16]*q2ex{}}
+	case "hostile":
+		// from now on the model does not care about this connection any more
+		if mc != nil && mc.open {
+			h.endConn(mc, false)
+			if mc.sess != nil && h.M.sessions[mc.cid] == mc.sess {
+				delete(h.M.sessions, mc.cid)
+			}
+		}
+		rc.AutoAck = false
+		if h.hostile == nil {
+			h.hostile = map[string]bool{}
+		}
+		h.hostile[a.Client] = true
+		rc.SendRaw(a.Raw)
+	case "hostile-cut":
+		rc.Cut()
 	case "cutraw":
 		rc.Cut()
 		if mc != nil {
@@ -541,6 +570,12 @@ func (h *Harness) compare(exps map[string]*Exp) []Mismatch {
 		c := h.byName[n]
 		got := c.Take()
 		e := exps[n]
+		if mcx := h.M.conns[n]; mcx != nil && !mcx.open && !mcx.accepted && mcx.cid == "" && e == nil {
+			continue // an attacker's connection: nothing is demanded
+		}
+		if mcx := h.M.conns[n]; mcx != nil && !mcx.open && e == nil && h.hostile[n] {
+			continue
+		}
 		mm = append(mm, CompareC(n, got, e, h.classify)...)
 		if c.Bad != "" {
 			mm = append(mm, Mismatch{"stream", c.Bad})
